@@ -300,9 +300,9 @@ type InjectorFieldAccessStmt struct {
 }
 
 // Stmt generates: fieldVar := structVar.FieldName (or = when predeclared in async builds)
-func (stmt *InjectorFieldAccessStmt) Stmt(varPool *VarPool, _ *Injector, _ func(errExpr ast.Expr) []ast.Stmt) ([]ast.Stmt, []string) {
-	// Determine if we need to use = instead of := (when variables are predeclared in async builds)
-	useAssign := stmt.ReturnParam.WithChannel()
+func (stmt *InjectorFieldAccessStmt) Stmt(varPool *VarPool, injector *Injector, _ func(errExpr ast.Expr) []ast.Stmt) ([]ast.Stmt, []string) {
+	// Determine if we need to use = instead of := (all variables are predeclared when the injector has goroutines)
+	useAssign := stmt.ReturnParam.WithChannel() || (injector != nil && hasChainStmts(injector))
 
 	tokenType := token.DEFINE
 	if useAssign {
